@@ -35,7 +35,7 @@ def generate(rng, tier):
     cases = list(CORPUS)
     for i in range(n):
         m = i % 10
-        case = sc.gen_dag(rng) if m < 7 else sc.gen_ring(rng, sufficient=True)
+        case = sc.gen_dag(rng) if m < 7 else (sc.gen_ring(rng, sufficient=True) if m < 9 else sc.gen_branching(rng))
         if m == 3:
             starts = [c["start"] for c in case["comps"] if c["kind"] == "T"]
             case["end"] = min(starts) - rng.choice([0, 1, 1000])  # end at / before the start: exactly one update
